@@ -7,7 +7,7 @@ package main
 // (trans_specs.go): the file, the function, how receiver fields map to GoMini fields, the meaning of named types
 // and constants, and the list of calls the function may make (shims).  Anything else — an unknown statement or
 // expression kind, a call without a shim, a type it cannot determine, shadowed control flow (labels, goto,
-// fallthrough, defer, go, closures), an element assignment, an `append` that is not `x = append(x, …)` — makes
+// fallthrough, go, closures, defer other than a top-level `defer recv.M()` of a recorded intrinsic), an element assignment, an `append` that is not `x = append(x, …)` — makes
 // the whole table FAIL (the table is removed and reported as `gen:Trans<Name> <reason>`); nothing is skipped or
 // approximated.  See docs/TRANSLATOR.md.
 
